@@ -36,6 +36,7 @@ def plan(rng, tier):
     cfg = common.draw_cfg(rng)
     dom = Domain(cfg["dom"])
     g = common.Gen(rng, dom, cfg["kind"])
+    g.p_bad = 0.03
     n = rng.randint(20, 80) if tier == "quick" else rng.choice(
         [30, 60, 120, 250, 400])
     if cfg["leaf"] is None:
